@@ -315,6 +315,41 @@ func observeLog(l raft.Log) *logObs {
 	return o
 }
 
+// checkOffsets: LogEntry.Offset is public and is what Truncate cuts the file
+// at; for every readable entry it must be the byte position of the entry's
+// record in log.bin (the placeholder is record 0).
+func checkOffsets(l raft.Log, dir string) string {
+	data, err := os.ReadFile(filepath.Join(dir, "log", "log.bin"))
+	if err != nil {
+		return ""
+	}
+	var pos []int64
+	off := 0
+	for len(data)-off >= 4 {
+		size := int(int32(binary.BigEndian.Uint32(data[off:])))
+		if size < 0 || len(data)-off-4 < size {
+			break
+		}
+		pos = append(pos, int64(off))
+		off += 4 + size
+	}
+	size := l.Size()
+	if size < 0 || len(pos) != size+1 {
+		return "" // content checks report this
+	}
+	first := l.NextIndex() - 1 - uint64(size)
+	for p := 1; p <= size; p++ {
+		e, err := l.GetEntry(first + uint64(p))
+		if err != nil {
+			return ""
+		}
+		if e.Offset != pos[p] {
+			return fmt.Sprintf("entry %d reports offset %d, its record starts at byte %d of log.bin", e.Index, e.Offset, pos[p])
+		}
+	}
+	return ""
+}
+
 func (o *logObs) equal(p *logObs) bool {
 	if o.Bad != "" || p.Bad != "" {
 		return false
@@ -682,6 +717,10 @@ func RunLogCase(c *LogCase, record bool) (out *logOutcome) {
 					out.Fail = failf(classifyLog(hist, "clean", "content:"+op.Op, false), "after %s the log reads %s, the reference model %s; case: %s", op, ro, mo, c)
 					return
 				}
+				if bad := checkOffsets(real, dir); bad != "" {
+					out.Fail = failf("entry-offset-differs-from-file-position:after-"+op.Op, "after %s: %s; case: %s", op, bad, c)
+					return
+				}
 				past = append(past, pastState{op.Op, disk.Clone()})
 				bounds = append(bounds, len(inj.Trace))
 			}
@@ -739,6 +778,10 @@ func RunLogCase(c *LogCase, record bool) (out *logOutcome) {
 		return
 	}
 	accept()
+	if bad := checkOffsets(real, dir); bad != "" {
+		out.Fail = failf("entry-offset-differs-from-file-position:after-recovery", "after recovery: %s; crashed during %s at %s; case: %s", bad, out.Inflight, out.HitCall, c)
+		return
+	}
 	out.Matched = disk.Clone()
 	model := newModel(disk)
 	ci, ct := model.NextIndex(), model.LastTerm()+1
